@@ -7,7 +7,7 @@
     *every* admissible view, i.e. every permutation of the indexed samples that
     is sorted by duration ([C05_admissible_meaning]). *)
 From Coq Require Import Permutation Sorted.
-From DivanV Require Import Base.Res Model.Stats Proofs.Stats.
+From DivanV Require Import Base.Res Model.Stats Proofs.Stats Proofs.StatsProv.
 Local Open Scope N_scope.
 
 Theorem C05_admissible_meaning : forall durs sv,
@@ -80,3 +80,76 @@ Theorem C05_total_refuted_zero_sample_size :
     {| in_size := 0; in_durs := [1]; in_allocs := []; in_counters := [] |} = Panic DivByZero.
 Proof. exact zero_sample_size_panics. Qed.
 Print Assumptions C05_total_refuted_zero_sample_size.
+
+(** Same-sample clause.  [column_of_sample inp st selq seln smp]: column
+    [selq]/[seln] of [st] shows, for the one sample [smp] = (index, duration) of
+    the recorded samples, its duration / sample size, the ten allocation figures
+    recorded for *its index* / sample size (0 when none were recorded) and its
+    counter values.  [median_of_two]: two different samples, durations, allocation
+    figures and counter values averaged.  Guards: a non-zero sample size, at
+    least one sample, no overflow of the totals, counter values are u64. *)
+Theorem C05_provenance : forall dbg sv inp st,
+  admissibleb (in_durs inp) sv = true -> in_size inp <> 0 -> in_durs inp <> [] ->
+  no_overflow inp -> counts_u64 inp ->
+  compute_stats true dbg sv inp = Ok st ->
+  (exists f, snd f = list_min (in_durs inp) /\ column_of_sample inp st fastest fastest f) /\
+  (exists l, snd l = list_max (in_durs inp) /\ column_of_sample inp st slowest slowest l) /\
+  (if Nat.even (length (in_durs inp))
+   then exists m0 m1, snd m0 = mid_lo (in_durs inp) /\ snd m1 = mid_hi (in_durs inp) /\
+                      median_of_two inp st m0 m1
+   else exists m, snd m = mid_hi (in_durs inp) /\ column_of_sample inp st median median m).
+Proof. exact provenance. Qed.
+Print Assumptions C05_provenance.
+
+(** Means: every allocation mean is the total over all recorded allocation
+    infos / total iteration count (at least 1); a counter's mean is the sum of
+    its recorded values / their number. *)
+Theorem C05_means : forall dbg sv inp st,
+  no_overflow inp -> counts_u64 inp -> compute_stats true dbg sv inp = Ok st ->
+  Forall2 (fun x t => xq_eqb x (Fin t (N.max (in_size inp * N.of_nat (length (in_durs inp))) 1)) = true)
+          (column_of mean st) (totals_of inp) /\
+  Forall2 (fun ci o => forall set, o = Some set ->
+             ci_counts ci <> [] /\
+             mean set = sum_list (ci_counts ci) / N.of_nat (length (ci_counts ci)))
+          (in_counters inp) (st_counts st).
+Proof. exact means. Qed.
+Print Assumptions C05_means.
+
+(** A counter kind is reported iff samples exist and a value was recorded (for
+    every sample, when the counter is per input). *)
+Theorem C05_counter_presence : forall dbg sv inp st,
+  admissibleb (in_durs inp) sv = true -> compute_stats true dbg sv inp = Ok st ->
+  Forall2 (fun ci o => forall b, expect_counter (length (in_durs inp)) ci = Some b -> b = is_some o)
+          (in_counters inp) (st_counts st).
+Proof. exact presence. Qed.
+Print Assumptions C05_counter_presence.
+
+(** The value stored for a per-input counter with a sample: the sum over the
+    sample's inputs / sample size; with one u64 count per iteration the cast to
+    u64 loses nothing. *)
+Theorem C05_counter_per_iter : forall input_counts ssize,
+  ssize <> 0 -> sum_list input_counts < 2 ^ 128 ->
+  per_iter_count input_counts ssize = Ok ((sum_list input_counts / ssize) mod 2 ^ 64) /\
+  (N.of_nat (length input_counts) = ssize -> Forall (fun c => c < 2 ^ 64) input_counts ->
+   per_iter_count input_counts ssize = Ok (sum_list input_counts / ssize)).
+Proof. exact counter_per_iter. Qed.
+Print Assumptions C05_counter_per_iter.
+
+(** The boolean specification evaluated by the violation search on the
+    implementation's outputs holds of the model, for every admissible view and
+    every input of the property's domain ([C05_in_domain_meaning]). *)
+Theorem C05_in_domain_meaning : forall inp,
+  in_domain inp = true -> size_ok inp /\ no_overflow inp /\ counts_u64 inp.
+Proof. exact in_domain_props. Qed.
+Print Assumptions C05_in_domain_meaning.
+
+Theorem C05_model_sb : forall dbg sv inp,
+  admissibleb (in_durs inp) sv = true -> in_domain inp = true ->
+  stats_sb inp (compute_stats true dbg sv inp) = true.
+Proof. exact model_sb. Qed.
+Print Assumptions C05_model_sb.
+
+Theorem C05_per_iter_model_sb : forall input_counts ssize,
+  per_iter_sb input_counts ssize (per_iter_count input_counts ssize) = true.
+Proof. exact per_iter_model_sb. Qed.
+Print Assumptions C05_per_iter_model_sb.
